@@ -420,6 +420,19 @@ def run(ctx):
             ctx.violation('repr', 'special', i, {'class': sub.__name__, 'base_repr_first': base_first, 'repr': r.brief(), 'expected_fields_in_order': names},
                           mech='repr:subclass-fields-missing-or-misordered')
             return
+        # a derived compare-field (init=False, filled by __post_init__) takes part in ordering where it stands, as it does in ==
+        Ver = type(f"VSO{next(_serial)}", (env.PaneBase,), {'__annotations__': {'key': int, 'name': str}, 'key': env.pfield(init=False),
+                                                            '__post_init__': lambda self: object.__setattr__(self, 'key', len(self.name)), '__module__': __name__},
+                   frozen=frozen, order=True)
+        insts_o = [Ver(nm) for nm in ('b', 'aa', 'c', 'ab', 'aaa')]
+        for a_, b_ in itertools.combinations(insts_o, 2):
+            ta, tb = (a_.key, a_.name), (b_.key, b_.name)
+            lt, gt, eq_ = observe(lambda: a_ < b_), observe(lambda: a_ > b_), observe(lambda: a_ == b_)
+            ctx.count('order_pairs')
+            if lt.kind != 'value' or gt.kind != 'value' or lt.val != (ta < tb) or gt.val != (ta > tb) or eq_.val != (ta == tb) or sum(map(bool, (lt.val, gt.val, eq_.val))) != 1:
+                ctx.violation('ordering', 'special', i, {'class': 'key: int = field(init=False) [= len(name)], name: str', 'a': short(a_), 'b': short(b_),
+                                                         '<': lt.brief(), '>': gt.brief(), '==': eq_.brief(), 'tuples': [ta, tb]}, mech='order:derived-compare-field-ignored')
+                return
         ctx.case(('special', frozen, eq), nontrivial=True)
 
     drive.for_each_case(ctx, 'special', 60, body_special, gen=lambda c, r: Ty('int'))
